@@ -83,6 +83,7 @@ pub fn check(c: &Case, ctx: &mut Ctx) -> Result<(), Failure> {
             }
             f
         };
+        crate::tele::step(&mut ind, &c.cfg);
         let out = if scalar { ind.next_scalar(bar.c) } else { ind.next_bar(&bar) };
         let t = i + 1;
         big = big.max(bar.max_abs_price());
@@ -333,6 +334,9 @@ pub fn run(g: &mut Global) {
     );
     let th = g.tier == Tier::Thorough;
     g.random("random", g.tier.pick(100000, 10000000), &move || strategy(th), &check);
+    // identity events (tele.rs): at one or two steps the instance is replaced by its clone, by a used instance
+    // (same or longer periods) that clone_from()s it, or by its serde round trip; nothing may change
+    g.random("events", g.tier.pick(30000, 1000000), &move || crate::tele::wrap(strategy(th)), &|t: &crate::tele::TCase<Case>, ctx: &mut Ctx| crate::tele::check_wrapped(t, ctx, t.case.prefix.len() + t.case.zv.len() + t.case.flat_len, t.case.cfg.n(), check));
     if g.tier == Tier::Thorough {
         g.fuzz_stage("ops_pred", Some(1), 600_000, "random", &|b| crate::fuzzdec::decode_c08(b), &check);
     }
